@@ -172,7 +172,7 @@ class CFG:
             ctx.handlers.pop()
             # any node created in the body may raise into each handler; so may the state before the body
             for nid in range(first_mark, len(self.nodes)):
-                if self.nodes[nid].kind in ("stmt", "test", "for", "with", "match", "case"):
+                if self.nodes[nid].kind in ("stmt", "test", "for", "with", "match", "case") and _may_raise(self.nodes[nid]):
                     for he in hentries:
                         self._edge(nid, he, "exc")
             for t, _ in tails:
@@ -310,6 +310,21 @@ class CFG:
 
     def stmt_nodes(self) -> list[Node]:
         return [n for n in self.nodes if n.kind not in ("entry", "exit", "raise")]
+
+
+def _may_raise(n: Node) -> bool:
+    """Can evaluating this node raise (for the purpose of try/except edges)?  Plain name/attribute
+    loads and stores, constants and identity tests cannot; calls, subscripts, arithmetic, raise,
+    assert, iteration can."""
+    a = n.ast
+    if a is None:
+        return False
+    if n.kind in ("for", "with", "match", "case"):
+        return True
+    for x in ast.walk(a):
+        if isinstance(x, (ast.Call, ast.Subscript, ast.BinOp, ast.Raise, ast.Assert, ast.Await, ast.Yield, ast.YieldFrom, ast.Delete, ast.Starred)):
+            return True
+    return False
 
 
 def node_has_call(n: Node, names: set[str]) -> bool:
